@@ -310,7 +310,15 @@ def r_frame_errors_are_errors(ctx):
     c11.r7_frame_errors_are_errors(Renamed(ctx, "C18.R6", "a truncated or corrupt request body is answered with an error, never handed to the handler as if complete"))
 
 
-RULES = [("C18.R6", r_frame_errors_are_errors), ("C18.R5", r5_no_client_sized_allocation), ("C18.R1", r1_accept_tolerates_errors), ("C18.R2", r2_isolation), ("C18.R3", r3_errors_become_responses), ("C18.R4", r4_panic_census)]
+def r7_unreadable_content_type(ctx):
+    """`invalid header values are answered with an error`: a Content-Type that is not a legal string is refused, it does not fall
+    back to the JSON default.  This is C10.R9, re-evaluated here (adversary change C18-E merged `absent` and `unreadable`)."""
+    from . import c10
+    from .lib_c01 import Renamed
+    c10.r9_unreadable_content_type_is_refused(Renamed(ctx, "C18.R7", "a request whose Content-Type header value is not a legal string is answered with a 4xx, never treated as if the header were absent"))
+
+
+RULES = [("C18.R7", r7_unreadable_content_type), ("C18.R6", r_frame_errors_are_errors), ("C18.R5", r5_no_client_sized_allocation), ("C18.R1", r1_accept_tolerates_errors), ("C18.R2", r2_isolation), ("C18.R3", r3_errors_become_responses), ("C18.R4", r4_panic_census)]
 
 _S = "dropshot/src/server.rs"
 _I32 = " " * 32
@@ -390,3 +398,4 @@ SELFTEST = [
 ]
 
 LEVEL_TEXT += ' Also (R5): on the request path no buffer is pre-sized from a length the client merely declares (size_hint / Content-Length).'
+LEVEL_TEXT += " Also (R7 = C10.R9): an unreadable Content-Type value is refused, not defaulted."
